@@ -8,6 +8,7 @@ namespace SpyneModel.Derive
 structure GoodFacts (F : Facts15) : Prop where
   mand : F.mandRule = .copies
   var : F.varRule = .ownPerClass
+  varX : F.varRuleX = .ownPerClass
   col : F.colCopy = .deep
 
 theorem impl_append (F : Facts15) [DeepCopy F] (fuel : Nat) (name : String) (t : Nat) : Impl (appendImpl F fuel name t) :=
@@ -94,7 +95,7 @@ theorem history_frame (F : Facts15) (gf : GoodFacts F) (fuel : Nat) (ops : List 
     intro h ih c hc hu
     simp only [runOps]
     have e := frame_ext F gf fuel h ih op
-    rw [ihops _ (inv_apply F gf.var fuel h op ih) c (Nat.lt_of_lt_of_le hc e.clsLen) hu.2]
+    rw [ihops _ (inv_apply F gf.var gf.varX fuel h op ih) c (Nat.lt_of_lt_of_le hc e.clsLen) hu.2]
     exact frame_obs F gf fuel h ih op c hc hu.1
 
 end SpyneModel.Derive
@@ -108,7 +109,7 @@ theorem getElem?_zipWith_range {β γ : Type} (f : Nat → β → γ) (l : List 
   · simp [List.getElem?_range hl, List.getElem?_eq_getElem hl]
   · simp [List.getElem?_eq_none hl]
 
-theorem inv_init (F : Facts15) (hF : F.varRule = .ownPerClass) : Inv (initHeap F) := by
+theorem inv_init (F : Facts15) (hF : F.varRuleX = .ownPerClass) : Inv (initHeap F) := by
   have hc : ∀ c, (viewOf (initHeap F)).cls c = (F.bases[c]?).map (fun b => (b.kind.isComplex, c, none)) := by
     intro c
     simp only [viewOf, initHeap, getElem?_zipWith_range, Option.map_map]
